@@ -444,6 +444,13 @@ func IsNotExist(err error) bool {
 	return false
 }
 
+// Stdout, Stderr, Stdin are sinks.
+var (
+	Stdin  = &File{name: "/dev/stdin"}
+	Stdout = &File{name: "/dev/stdout", write: true, sink: true}
+	Stderr = &File{name: "/dev/stderr", write: true, sink: true}
+)
+
 func Getenv(string) string            { return "" }
 func LookupEnv(string) (string, bool) { return "", false }
 func UserHomeDir() (string, error)    { return "/home/zz", nil }
@@ -458,6 +465,7 @@ type File struct {
 	off    int
 	write  bool
 	closed bool
+	sink   bool
 }
 
 func (f *File) Name() string { return f.name }
@@ -465,6 +473,9 @@ func (f *File) Name() string { return f.name }
 func (f *File) node() *node { return f.fs.nodes[f.name] }
 
 func (f *File) Write(b []byte) (int, error) {
+	if f.sink {
+		return len(b), nil
+	}
 	Cur.mu.Lock()
 	defer Cur.mu.Unlock()
 	if f.closed {
